@@ -137,3 +137,80 @@ Definition defined_var (s : stmt) : option N :=
 
 Definition is_function_def (s : stmt) : bool :=
   match s with SDefinition _ _ _ _ value _ => is_function_expr value | _ => false end.
+
+(* ---------------------------------------------------------------------------------------------- *)
+(* the variables that function definitions (at any depth) define: a function definition does not depend
+   on itself (`deps.remove(var)`), which is what allows a function to call itself *)
+Fixpoint fdefs_e (e : expr) : list N :=
+  match e with
+  | ERead _ _ => []
+  | EVariant _ _ value _ => fdefs_e value
+  | ECall f args _ => fdefs_e f ++ flat_map fdefs_e args
+  | EBlobAccess value _ _ => fdefs_e value
+  | EIndex value index _ => fdefs_e value ++ fdefs_e index
+  | EBinOp _ a b _ => fdefs_e a ++ fdefs_e b
+  | EUniOp _ a _ => fdefs_e a
+  | EIf branches _ =>
+      flat_map (fun b => match b with
+                         | IfBranch cond body _ =>
+                             (match cond with Some c => fdefs_e c | None => [] end) ++ flat_map fdefs_s body
+                         end) branches
+  | ECase to_match branches fall_through _ =>
+      fdefs_e to_match
+      ++ (match fall_through with Some b => flat_map fdefs_s b | None => [] end)
+      ++ flat_map (fun b => match b with CaseBranch _ _ _ body _ => flat_map fdefs_s body end) branches
+  | EFunction _ _ _ body _ _ => flat_map fdefs_s body
+  | EBlob _ fields _ _ => flat_map (fun f => fdefs_e (snd f)) fields
+  | ECollection _ values _ => flat_map fdefs_e values
+  | EFloat _ _ | EInt _ _ | EStr _ _ | EBool _ _ | ENil _ => []
+  end
+with fdefs_s (s : stmt) : list N :=
+  match s with
+  | SAssignment _ target value _ => fdefs_e target ++ fdefs_e value
+  | SBlock ss _ => flat_map fdefs_s ss
+  | SLoop cond body _ => fdefs_e cond ++ flat_map fdefs_s body
+  | SDefinition _ v _ _ value _ => (if is_function_expr value then [v] else []) ++ fdefs_e value
+  | SRet (Some value) _ | SStatementExpression value _ => fdefs_e value
+  | SRet None _ => []
+  | SBlob _ _ _ _ _ _ | SEnum _ _ _ _ _ | SExternalDefinition _ _ _ _ _ | SBreak _ | SContinue _
+  | SUnreachable _ => []
+  end.
+
+(* size, for proofs by induction *)
+Definition sum_with {A} (f : A -> nat) : list A -> nat :=
+  fix go (l : list A) : nat := match l with [] => 0 | x :: xs => f x + go xs end.
+
+Fixpoint size_e (e : expr) : nat :=
+  S (match e with
+     | ERead _ _ => 0
+     | EVariant _ _ value _ => size_e value
+     | ECall f args _ => size_e f + sum_with size_e args
+     | EBlobAccess value _ _ => size_e value
+     | EIndex value index _ => size_e value + size_e index
+     | EBinOp _ a b _ => size_e a + size_e b
+     | EUniOp _ a _ => size_e a
+     | EIf branches _ =>
+         sum_with (fun b => match b with
+                            | IfBranch cond body _ =>
+                                (match cond with Some c => size_e c | None => 0 end) + sum_with size_s body
+                            end) branches
+     | ECase to_match branches fall_through _ =>
+         size_e to_match
+         + (match fall_through with Some b => sum_with size_s b | None => 0 end)
+         + sum_with (fun b => match b with CaseBranch _ _ _ body _ => sum_with size_s body end) branches
+     | EFunction _ _ _ body _ _ => sum_with size_s body
+     | EBlob _ fields _ _ => sum_with (fun f => size_e (snd f)) fields
+     | ECollection _ values _ => sum_with size_e values
+     | EFloat _ _ | EInt _ _ | EStr _ _ | EBool _ _ | ENil _ => 0
+     end)
+with size_s (s : stmt) : nat :=
+  S (match s with
+     | SAssignment _ target value _ => size_e target + size_e value
+     | SBlock ss _ => sum_with size_s ss
+     | SLoop cond body _ => size_e cond + sum_with size_s body
+     | SDefinition _ _ _ _ value _ => size_e value
+     | SRet (Some value) _ | SStatementExpression value _ => size_e value
+     | SRet None _ => 0
+     | SBlob _ _ _ _ _ _ | SEnum _ _ _ _ _ | SExternalDefinition _ _ _ _ _ | SBreak _ | SContinue _
+     | SUnreachable _ => 0
+     end).
